@@ -30,6 +30,8 @@ Colfilter0OK == cfg.kind = "colfilter0" =>
 ColdfiltOK == cfg.kind = "coldfilt" =>
                   /\ SamePair(ImplColdfilt(cfg.r, cfg.L, cfg.hp), RefColdfilt(cfg.r, cfg.L, Pol(cfg.hp)))
                   /\ ImplColdfilt(cfg.r, cfg.L, cfg.hp).a.no = cfg.r \div 2
+\* the scalar position maps of DTCWT1Src (what TLAPS reasons about for all sizes) are these tensors
+ColdScalarOK == cfg.kind = "coldfilt" => ColdScalarForm(cfg.r, cfg.L, cfg.hp)
 ColifiltOK == cfg.kind = "colifilt" =>
                   /\ SamePair(ImplColifilt(cfg.r, cfg.L, cfg.hp), RefColifilt(cfg.r, cfg.L, Pol(cfg.hp)))
                   /\ ImplColifilt(cfg.r, cfg.L, cfg.hp).a.no = 2 * cfg.r
